@@ -68,7 +68,7 @@ def gen_alias_word(r):
 
 
 def gen_alias_value(r, k):
-    from .c18 import alias_value_edge
+    from .c18 import alias_edge_py as alias_value_edge
     for _ in range(20):
         words = [gen_alias_word(r) for _ in range(r.range(1, 3))]
         head = r.pick(["rev-parse --sq-quote", "rev-parse --sq-quote", "log --format=%s -5 --grep", f"commit --allow-empty -m"])
